@@ -37,10 +37,19 @@ func jobC07(c *rt.Ctx) {
 						}
 						sv, vv := pairs[si], pairs[vi]
 						msg := msgOf(mi, vPh) // 64 bytes so that every variant can carry it
-						t := honestTriple(50+ki, msg, sv)
 						exp := si == vi
-						mexp, _ := modelVerify(t, vv, false)
-						if mexp != exp {
+						// two sources of signatures: the model (tests verification on its own) and the
+						// library's own signer (tests the statement literally: sign under one pair, verify under another)
+						t := modelTriple(50+ki, msg, sv)
+						if mi == 1 {
+							t = honestTriple(50+ki, msg, sv)
+							if ok, _ := modelVerify(t, sv, false); !ok {
+								d := hexd(t)
+								d["variant"] = sv.String()
+								c.Violation(fmt.Sprintf("C07 library signature not RFC 8032 under %s", sv.v), fmt.Sprintf("the signature the library makes under %s is not a valid signature under that pair (model)", sv), d)
+							}
+						}
+						if mexp, _ := modelVerify(t, vv, false); mexp != exp && mi == 0 {
 							c.Fail("model accepts across domains: sign %v verify %v", sv, vv)
 							return
 						}
@@ -255,4 +264,18 @@ func jobC07(c *rt.Ctx) {
 			fail("VerifyBatch")
 		}
 	}
+}
+
+var modelTripleMemo = map[string]triple{}
+
+// modelTriple signs with the reference model (RFC 8032), independently of the library's signer.
+func modelTriple(seedIdx int, msg []byte, vs variantSpec) triple {
+	k := fmt.Sprintf("%d|%x|%s", seedIdx, msg, vs)
+	if t, ok := modelTripleMemo[k]; ok {
+		return t
+	}
+	seed := seedOf(seedIdx)
+	t := triple{ref.Public(seed), msg, ref.Sign(seed, msg, vs.v, []byte(vs.ctx))}
+	modelTripleMemo[k] = t
+	return t
 }
